@@ -393,6 +393,14 @@ def run(repo, rep):
     n = check_r18a(repo, rep, uni, local)
     check_r18c(repo, rep, uni, local, shared)
     check_r18e(repo, rep, uni)
+    # data that two evaluations can both reach (a document, values stored
+    # in a shared context) is shared state too: no in-place write on
+    # argument data (decided by C09's rule)
+    from sa.rules import c09
+    rep.rule('R09a', 'see C09: no in-place write on a value reachable from '
+             'an argument (the data two evaluations may share)')
+    eff = c09.Effects(repo, uni)
+    c09.check_r09a(repo, rep, uni, eff, c09.r09a_scope(uni))
     funcs = uni.evaluation_time()
     rep.count(evaluation_time_functions=len(funcs), classified_writes=n,
               stateful_classes=sorted(stateful))
